@@ -390,5 +390,56 @@ def r5_ratelimit(chk: Check) -> None:
     chk.decide(bool(kw) and ceq(cl, kw[0], 'self.rate_limiter'), "C12.R5", cl, "clone keeps the rate limiter", "schemas derived with include/exclude/parametrize lose the rate limiter", cl.loc())
 
 
+def r6_stop_before_join(chk: Check) -> None:
+    chk.rule("C12.R6", "ORDER(stop request, join): when Ctrl-C reaches a phase's consumer loop, the engine's stop flag is set BEFORE the phase waits for its worker threads (Thread.join / the worker pool's __exit__); otherwise the workers never see the stop request and run every remaining operation while the main thread waits", floor=2)
+    P = chk.project
+
+    def joins(fn_: FuncInfo, depth: int = 0) -> bool:
+        for c_ in body_calls(fn_):
+            if last_attr(c_) == "join" and isinstance(c_.func, ast.Attribute) and not isinstance(c_.func.value, ast.Constant):
+                return True
+            if depth < 2:
+                r_ = P.resolve_call(fn_, c_)
+                if r_ and r_[0] == "func" and joins(r_[1], depth + 1):  # type: ignore[arg-type]
+                    return True
+        return False
+
+    n = 0
+    for ref in (f"{UNIT}:execute", "engine/phases/stateful/__init__.py:execute"):
+        fn = P.func(ref)
+        g = cfg_of(fn)
+        engine_params = set(params_of(fn.node))
+        stop_nodes = [nid for c in body_calls(fn) if last_attr(c) == "stop" and isinstance(c.func, ast.Attribute) and dotted(c.func.value) in engine_params for nid in g.stmt_nodes_containing(c)]
+        # join sites: explicit <thread>.join() statements and the exit of a `with <pool>` whose __exit__ joins
+        join_nodes: list[int] = []
+        for c in body_calls(fn):
+            if last_attr(c) == "join" and isinstance(c.func, ast.Attribute) and not isinstance(c.func.value, ast.Constant):
+                join_nodes += g.stmt_nodes_containing(c)
+        for w_ in [x for x in walk_body(fn.node) if isinstance(x, ast.With)]:
+            for item in w_.items:
+                if isinstance(item.context_expr, ast.Call):
+                    r = P.resolve_call(fn, item.context_expr)
+                    if r and r[0] == "class":
+                        ex = P.resolve_method(r[1], "__exit__")  # type: ignore[arg-type]
+                        if ex is not None and joins(ex):
+                            join_nodes += [x.id for x in g.live() if x.kind == "wexit" and x.ast is not None and (x.ast is w_ or x.ast is item.context_expr or is_within(x.ast, w_) and x.ast is item.context_expr)]
+        ki_sources = [(x.id, m) for x in g.live() for m, lbl in x.succ if lbl == "exc:KeyboardInterrupt" and x.kind in ("stmt", "test", "for", "with")]
+        construct = "engine.stop() precedes the join of the workers on the Ctrl-C path"
+        if not join_nodes or not ki_sources:
+            chk.undecided("C12.R6", fn, construct, f"join sites={len(join_nodes)} interrupt sources={len(ki_sources)}: shape not recognised", fn.loc())
+            continue
+        if not stop_nodes:
+            chk.violation("C12.R6", fn, construct, "the phase never sets the stop flag when it is interrupted: workers finish all remaining operations", fn.loc())
+            continue
+        n += 1
+        w = g.path([m for _s, m in ki_sources], join_nodes, avoid=stop_nodes)
+        if w is None:
+            chk.ok("C12.R6", fn, construct, f"{len(ki_sources)} interrupt source(s), {len(join_nodes)} join site(s)", fn.loc())
+        else:
+            chk.violation("C12.R6", fn, construct,
+                          "a KeyboardInterrupt raised in the consumer loop reaches the join of the worker threads before engine.stop() is called: the workers do not see a stop request and send every remaining request while the main thread waits (the run is reported as interrupted only afterwards)",
+                          fn.loc(), g.describe_path(w, fn.module.relpath))
+
+
 def rules(tier: str) -> list:  # type: ignore[type-arg]
-    return [r1_stop_checks, r2_failure_limit, r3_plumbing, r4_unique_inputs, r4b_cache_writers, r5_ratelimit]
+    return [r1_stop_checks, r2_failure_limit, r3_plumbing, r4_unique_inputs, r4b_cache_writers, r5_ratelimit, r6_stop_before_join]
